@@ -379,22 +379,42 @@ Local Open Scope nat_scope.
 
 
 def eval_cases(tag, imports, terms, shard=250, extra_defs=""):
-    """terms: list of Coq bool expressions. Returns (set of failing indices, log) ; raises on Coq failure."""
+    """terms: list of Coq bool expressions, or groups (prelude, [exprs]) whose prelude (vernacular, e.g. a value
+    computed once with 'Definition x := Eval vm_compute in ...') is shared by the expressions of the group.
+    Returns (set of failing flat indices, log); raises on Coq failure."""
     os.makedirs(RUN, exist_ok=True)
     for f in glob.glob(os.path.join(RUN, "cases_%s_*" % tag)):
         os.remove(f)
-    files = []
-    for s in range(0, len(terms), shard):
-        name = "cases_%s_%d" % (tag, s // shard)
+    groups = []
+    k = 0
+    for t in terms:
+        if isinstance(t, tuple):
+            groups.append((t[0], [(k + j, e) for j, e in enumerate(t[1])])); k += len(t[1])
+        else:
+            groups.append(("", [(k, t)])); k += 1
+    files, cur, cnt = [], [], 0
+    shards = []
+    for g in groups:
+        if cnt + len(g[1]) > shard and cur:
+            shards.append(cur); cur, cnt = [], 0
+        cur.append(g); cnt += len(g[1])
+    if cur:
+        shards.append(cur)
+    for si, sh_ in enumerate(shards):
+        name = "cases_%s_%d" % (tag, si)
         path = os.path.join(RUN, name + ".v")
         with open(path, "w") as fh:
             fh.write(HEADER % imports)
             fh.write(extra_defs + "\n")
-            chunk = terms[s:s + shard]
-            for i, t in enumerate(chunk):
-                fh.write("Definition c%d : bool :=\n  %s.\n" % (s + i, t))
-            fh.write("Definition results : list bool := [%s].\n" % "; ".join("c%d" % (s + i) for i in range(len(chunk))))
-            fh.write("Eval vm_compute in (failing %d results).\n" % s)
+            ids = []
+            for prelude, items in sh_:
+                if prelude:
+                    fh.write(prelude + "\n")
+                for i, t in items:
+                    fh.write("Definition c%d : bool :=\n  %s.\n" % (i, t)); ids.append(i)
+            fh.write("Definition results : list bool := [%s].\n" % "; ".join("c%d" % i for i in ids))
+            fh.write("Definition ids : list nat := [%s]%%nat.\n" % "; ".join(str(i) for i in ids))
+            fh.write("Eval vm_compute in (map (fun j => nth j ids 0%nat) (failing 0 results)).\n")
         files.append(name)
     if not files:
         return set(), ""
@@ -511,6 +531,9 @@ class Check:
         """return the signature of a known finding that explains this failure, or None"""
         return None
 
+    def model_flags(self, results):
+        return []
+
     def extra_checks(self):
         """additional whole-run checks; returns list of (msg, case) violations"""
         return []
@@ -608,17 +631,33 @@ class Check:
             if msg:
                 oracle_fail.append((i, msg))
             t = self.coq(c, o)
-            if t is not None:
-                terms.append(t); idx.append(i)
+            if t is None:
+                continue
+            if isinstance(t, tuple):          # (prelude, agreement term, {name: auxiliary model verdict})
+                prelude, main, aux = t
+                names = sorted(aux)
+                terms.append((prelude, [main] + [aux[nm] for nm in names]))
+                idx.append((i, names))
+            else:
+                terms.append(t); idx.append((i, []))
         corr_fail = []
         coq_error = None
+        self.aux = {}
+        n_corr = len(terms)
         if terms:
             try:
                 failing, _ = eval_cases(self.ID, self.IMPORTS, terms, shard=self.SHARD, extra_defs=self.EXTRA_DEFS)
-                corr_fail = [idx[j] for j in sorted(failing)]
+                k = 0
+                for (i, names) in idx:
+                    if k in failing:
+                        corr_fail.append(i)
+                    k += 1
+                    for nm in names:
+                        self.aux.setdefault(i, {})[nm] = k not in failing
+                        k += 1
             except Exception as e:
                 coq_error = str(e)
-        return {"oracle_fail": oracle_fail, "corr_fail": corr_fail, "n_corr": len(terms), "coq_error": coq_error}
+        return {"oracle_fail": oracle_fail, "corr_fail": corr_fail, "n_corr": n_corr, "coq_error": coq_error}
 
     def on_exception(self, case, obs):
         return "implementation raised " + obs["exception"]
@@ -653,8 +692,9 @@ class Check:
         seen_sig = set()
         for i, msg in j["oracle_fail"]:
             c, o = results[i]
+            self.cur = i
             sig = self.known(c, o, msg)
-            if sig:
+            if sig and sig in {k["signature"] for k in known_findings(pid)}:
                 known_hits.setdefault(sig, (c, o, msg))
                 continue
             key = msg.split(":")[0]
@@ -663,6 +703,15 @@ class Check:
             seen_sig.add(key)
             c2, o2 = self.shrink(c, o, msg)
             violations.append((self.write_replay("oracle", c2, o2, msg), ""))
+        # 2b. defects that only the model can see (e.g. a harmless out-of-bounds read): (index, signature, message)
+        listed = {k["signature"] for k in known_findings(pid)}
+        for i, sig, msg in (self.model_flags(results) if ok_build else []):
+            c, o = results[i]
+            if sig in listed:
+                known_hits.setdefault(sig, (c, o, msg))
+            elif sig not in seen_sig:
+                seen_sig.add(sig)
+                violations.append((self.write_replay("model-flag", c, o, msg), ""))
         # 3. broken proof / broken correspondence -> search, else no-failing-input-found
         broken = []
         if lint_bad:
@@ -676,8 +725,9 @@ class Check:
         unexplained_corr = []
         for i in j["corr_fail"]:
             c, o = results[i]
+            self.cur = i
             sig = self.known(c, o, "correspondence")
-            if sig:
+            if sig and sig in {k["signature"] for k in known_findings(pid)}:
                 known_hits.setdefault(sig, (c, o, "correspondence"))
             else:
                 unexplained_corr.append(i)
